@@ -266,8 +266,11 @@ def needMakeMapping (i : Info) (m : Mapping) : Bool :=
   else if i.hasBack ∧ (m.source = .backing ∨ m.source = .unallocated) then false
   else true
 
-/-- `release_zero_prealloc(old)`: the preallocated cluster of a replaced
-    zero-flagged entry is released -/
+/-- release of the preallocated cluster of a replaced zero-flagged entry.  NOT
+    called by the code at present: `alloc_and_map_cluster` drops the old
+    allocation (`let _ = map_cluster(..)`), which leaks the cluster — known
+    finding C03/leak-of-zero-prealloc-cluster.  Kept for the statement of what a
+    repair has to do (release only after the new mapping is durable). -/
 def releaseZeroPrealloc (old : E64) : M Unit := fun d =>
   if ¬ L2.isCompressed old ∧ L2.isZero old then
     match L2.allocation d.info.cb old with
@@ -281,10 +284,7 @@ def allocAndMap (off : Nat) : M Unit := do
   match ← allocateClusters 1 with
   | some (h, _) =>
     markNewData h
-    let d ← M.get
-    let old := d.l2Entry off
     M.modify fun d => (d.setL2 off (L2.mapClusterEntry h))
-    releaseZeroPrealloc old
   | none => M.fail .nospace
 
 /-- `make_single_write_mapping(virt_off)` -/
@@ -316,14 +316,10 @@ def mapRun (cstart ccnt stop : Nat) : Nat → Nat → Nat → List E64 → M (Li
       let h := cstart + idx * i.clusterSize
       let d1 := { d with newData := (h / i.clusterSize) :: d.newData }
       let d2 := d1.setL2 this (L2.mapClusterEntry h)
-      match releaseZeroPrealloc e d2 with
-      | (d3, .ok ()) =>
-        let acc' := d3.l2Entry this :: acc
-        let idx' := idx + 1
-        if idx' ≥ ccnt then (d3, .ok (acc'.reverse, this + i.clusterSize, idx'))
-        else mapRun cstart ccnt stop fuel (this + i.clusterSize) idx' acc' d3
-      | (d3, .err x) => (d3, .err x)
-      | (d3, .panic p) => (d3, .panic p)
+      let acc' := d2.l2Entry this :: acc
+      let idx' := idx + 1
+      if idx' ≥ ccnt then (d2, .ok (acc'.reverse, this + i.clusterSize, idx'))
+      else mapRun cstart ccnt stop fuel (this + i.clusterSize) idx' acc' d2
     else
       -- `if idx >= cluster_cnt { break }` is evaluated after every iteration
       if idx ≥ ccnt then (d, .ok ((e :: acc).reverse, this + i.clusterSize, idx))
